@@ -3,6 +3,9 @@
 mod util;
 mod path;
 mod gc;
+mod regs;
+mod run;
+mod compile;
 
 fn main() {
     let args: Vec<String> = std::env::args().collect();
@@ -11,6 +14,9 @@ fn main() {
     let code = match cmd {
         "path" => path::main(&rest),
         "gc" => gc::main(&rest),
+        "regs" => regs::main(&rest),
+        "run" => run::main(&rest),
+        "compile" => compile::main(&rest),
         _ => {
             eprintln!("usage: th <engine> <args..>");
             2
